@@ -77,6 +77,10 @@ def gen_long(spec):
         df['lag_L2'] = df['lag_L2'].astype(int)
     if spec.get('int_lag'):
         df['lag_L2'] = df['lag_L2'].round().astype(int)
+    # two never-true baseline flags whose NAMES contain the words the plan keywords are made of (autumn enrolment, not enrolled):
+    # a custom rule may mention them
+    df['fall'] = 0
+    df['nonenrolled'] = 0
     if spec.get('float_time'):          # whole-number times stored as floats (t_max then comes out of np.max as a float)
         df['t_in'] = df['t_in'].astype(float)
         df['t_out'] = df['t_out'].astype(float)
@@ -274,6 +278,10 @@ def fit_once(spec, g, df, lm):
     """one fit() under the spies; returns a dict of python-native observations"""
     lags = LAGS[spec['lags']]
     plan = spec['plan'] if spec['plan'] != 'custom' else rule_py(spec['rule'])
+    if spec['plan'] == 'custom' and spec['data_seed'] % 2 == 0:
+        # the same rule, written with a clause that is never true: a rule is Python evaluated on the simulated rows, whatever the
+        # column names in it look like
+        plan = "(%s | (g['%s']==1))" % (plan, ['fall', 'nonenrolled'][spec['data_seed'] // 2 % 2])
     t_arg, T = tmax_of(spec, df)
     kw = {}
     if spec['spy']:
